@@ -180,6 +180,7 @@ func SpecErrorValued(reply interface{}) bool { return false }
 //@   set bSent = bSent + 1 after call send
 //@   set bRecv = bRecv + 1 after call receive
 //@   assert at call send: requests_written_in_batch_order: 0 <= bSent && bSent < len(batch.cmds) && cmd == batch.cmds[bSent].cmd && args == batch.cmds[bSent].args
+//@   assert at call handleReply: a_redirected_command_is_not_overtaken_by_later_commands_of_its_batch: isMoved(reply) || isAsk(reply) ==> bRecv == len(batch.cmds)
 //@   assert at call handleReply: reply_handled_with_its_own_command: 1 <= bRecv && bRecv <= len(batch.cmds) && cmd == batch.cmds[bRecv - 1].cmd && args == batch.cmds[bRecv - 1].args
 //@   loop 1:
 //@     invariant sent_prefix: 0 - 1 <= rangeindex#1 && rangeindex#1 < len(batch.cmds) && (exec.err == nil ==> bSent == rangeindex#1 + 1) && bRecv == 0
